@@ -8,6 +8,19 @@ ROOT = os.path.dirname(os.path.dirname(os.path.abspath(__file__)))
 props = [json.loads(l) for l in open(os.path.join(ROOT, "properties.jsonl"))]
 
 CHECKS = {
+    "C11": dict(
+        text="Parent.tla: the per-entry decision of a parent-based backup over every combination of current kind x parent node "
+             "(absent / file / dir / link; same or different size, mtime, ctime, inode, content; blobs indexed or not) for one and two "
+             "parents x options: Equal, Present, ReadIfMissing; the decision without index test / type test violates them (negative "
+             "controls). Every one-parent case (and sampled two-parent cases) becomes a path of a real source; random trees with random "
+             "edits (touch, change with / without size change, ctime-only, removal, subtree rename, file <-> dir <-> symlink) are added. "
+             "The real backup with explicit parents runs after chosen parent blobs were really lost from the index (packs removed + "
+             "repair-index) or the parents' tree packs were removed, then the same source is backed up with --force. ParentTrace.tla "
+             "evaluates ReuseOK, EqualP, Equal (tree ids), Present, SkipOK on the recorded real facts.",
+        note="In-memory sources with controlled metadata. Parent selection by group/latest is not exercised (explicit parents). "
+             "Runs outside the property's premise must show a differing tree (vacuity guard).",
+        technique="TLC enumeration of the parent decision table, replayed as real backups; TLC validation of recorded node facts of parent-based vs forced backup",
+        design="4/C11"),
     "C04": dict(
         text="Sealed.tla: stored files as sequences of sealed messages (whole-file messages; packs = blob messages + header + "
              "unauthenticated length), adversary actions flip / truncate / extend / substitute / remove, the library's readers "
